@@ -59,6 +59,18 @@ MANIFEST = {
             "new object, and deep copies / pickles / clones must own their storage. Every copy mechanism is also followed by every "
             "operation that uses the copy as one operand among several (cat as first / last operand, stack, append, binary ops, "
             "split, from_images, ...). "
+            "Functions with several outputs (facet multi_output): every public function of torch, torch.Tensor, torch.nn.functional, "
+            "torch.linalg, torch.fft, torch.special that dispatches through __torch_function__ is called on a plain probe tensor "
+            "through 18 argument templates; the about 100 functions / 270 call forms that return a tuple, list or torch.return_types.* "
+            "of tensors (max / min / median / mode / kthvalue / topk / sort / cummax / aminmax / var_mean / std_mean, unbind / chunk / "
+            "split family / hsplit / vsplit / dsplit / unsafe_*, unique / unique_consecutive with inverse and counts, frexp, "
+            "gradient, broadcast_tensors / atleast_nd of two batches, max_pool with indices, the torch.linalg decompositions, ...) "
+            "are applied with every parameter combination plain torch accepts (dim incl. the batch dimension, keepdim, k, section "
+            "lists, second operand) to batches of N = 1, 2, 3, 4 items, so that coincidences like 'the batch sizes of the outputs "
+            "sum to N' or 'an output has N entries again' occur. Each OUTPUT is judged separately with an ownership model obtained "
+            "by intervention on plain torch (which items does entry i of output k change with?): an entry computed from one item "
+            "must carry that item's grid if the output is described at all; an entry computed from several items of one batch "
+            "(reduction / selection / sorting across the batch dimension, index outputs along it) must not be described at all. "
             "Exploration, no proof: a deterministic survey of every call form plus random programs.",
     "note": "Trusted: plain torch semantics of the same calls on torch.Tensor (the shadow), the closed-form item grids "
             "(geometry k: center 100*k+10*a, spacing 1+k/2+a/4, optional x-y rotation by 0.2+0.1*k rad; float32-exact values) "
@@ -74,9 +86,23 @@ MANIFEST = {
 ASSUMPTIONS = [
     "a result that is a plain torch.Tensor is always acceptable (the property only speaks about results that are again "
     "one of the four deepali types)",
-    "entries whose data mixes several input items (sum over dim 0, transpose(0,1) with N == C, x + other batch) have no "
-    "single owner; only grid count and shape are checked for them and for anything a later op cuts out of them (e.g. the "
-    "channels split off a channel-wise cat of two images with different grids, which carries the first operand's grid)",
+    "entries whose data mixes several input items operand-wise (x + other batch, where(), channel-wise cat of two images: entry "
+    "i combines entry i of the first operand with other operands and inherits from the first operand) or through a shape "
+    "coincidence of a reshaping single-output op (transpose(0,1), reshape with N == C) have no single owner; only grid count "
+    "and shape are checked for them and for anything a later op cuts out of them - provided the result has the batch size of "
+    "a batch it was computed from (an Image result: provided an Image was among the operands); otherwise 'its batch size no "
+    "longer matches the grids it could inherit' and it must be a plain tensor",
+    "an output entry computed from several items of ONE batch - a reduction / selection / sort / cumulative op across the batch "
+    "dimension, values and index outputs alike - holds no item's data: it must not be described as an image (batch) again, "
+    "whatever its shape (asserted for reductions along dim 0 and for every output of the functions with several outputs, "
+    "where the shadow knows the contributing items; the unchanged code returns plain tensors there). An index output computed "
+    "from one item only (argmax over channels, sort indices along a spatial dimension) may keep that item's grid",
+    "ownership of the outputs of a multi-output function is found by intervention: the data of one item is replaced by four other "
+    "data sets (far above / far below all items, negated, reversed); entry i depends on the item if it changes. A dependence that "
+    "none of the four reveals is not seen (entries no intervention changes are not judged); functions that draw random numbers "
+    "are left out (no plain-torch value to compare with)",
+    "a multi-output function called on a deepali object returns the container type plain torch returns (the named tuple "
+    "torch.return_types.*, so that .values / .indices keep working)",
     "ImageBatch.narrow / Image.narrow along a spatial dimension are expected to narrow every item's own grid",
     "deepcopy / pickle / clone must not share Grid objects or grid attribute storage with the input; copy.copy may share; "
     "whether entries of the result share Grid objects among each other is not constrained",
@@ -867,12 +893,310 @@ def interpret(op: dict, D: int):
             return torch.stack(items, 0)
 
         return "struct", call, []
+    if o == "multi":  # a function with several outputs (discovered: multi_forms()), called through one argument template
+        f = getattr(MULTI_NS[op["ns"]], op["fn"])
+        tpl = MULTI_TPLS[op["tpl"]]
+        return "multi", (lambda t, E: tpl(f, t, op, E)), []
     raise ValueError(f"unknown op {o}")
+
+
+# ---------------------------------------------------------------------------------------
+# functions with several outputs (tuple / list / torch.return_types.*): discovered, not listed by hand
+#
+# Every public function of the torch namespaces that dispatches through __torch_function__ is called on a plain probe tensor
+# through a list of argument templates; the (namespace, function, template) triples for which plain torch returns a
+# sequence of at least two tensors (or a list) are the multi-output call forms.  (Builtins are pre-selected by the return type
+# of their ATen schemas where torch exposes them; python-level functions are all probed.)
+
+MULTI_NS = {"torch": torch, "Tensor": torch.Tensor, "F": F, "linalg": torch.linalg, "fft": torch.fft, "special": torch.special}
+MULTI_TPLS = {
+    "x": lambda f, x, o, E: f(x),
+    "x_dim": lambda f, x, o, E: f(x, dim=o["dim"]),
+    "x_dim_kd": lambda f, x, o, E: f(x, dim=o["dim"], keepdim=bool(o["keepdim"])),
+    "x_dims_kd": lambda f, x, o, E: f(x, dim=[o["dim"]], keepdim=bool(o["keepdim"])),
+    "x_i": lambda f, x, o, E: f(x, o["i"]),
+    "x_i_kd": lambda f, x, o, E: f(x, o["i"], bool(o["keepdim"])),
+    "x_i_dim": lambda f, x, o, E: f(x, o["i"], dim=o["dim"]),
+    "x_i_j": lambda f, x, o, E: f(x, o["i"], o["dim"]),
+    "x_i_dim_kd": lambda f, x, o, E: f(x, o["i"], dim=o["dim"], keepdim=bool(o["keepdim"])),
+    "x_sec": lambda f, x, o, E: f(x, list(o["sec"])),
+    "x_sec_dim": lambda f, x, o, E: f(x, list(o["sec"]), dim=o["dim"]),
+    "x_y": lambda f, x, o, E: f(x, E[o["other"]]),
+    "y_x": lambda f, x, o, E: f(E[o["other"]], x),
+    "seq": lambda f, x, o, E: f([x, E[o["other"]]]),
+    "tseq": lambda f, x, o, E: f((E[o["other"]], x)),
+    "uniq": lambda f, x, o, E: f(x, return_inverse=True, return_counts=True),
+    "uniq_dim": lambda f, x, o, E: f(x, return_inverse=True, return_counts=True, dim=o["dim"]),
+    "x_i_ri": lambda f, x, o, E: f(x, o["i"], return_indices=True),
+}
+MULTI_OPERAND_TPLS = ("x_y", "y_x", "seq", "tseq")
+MULTI_KS = (1, 2, 3)
+MULTI_SECS = ([1], [1, 1], [1, 2], [2, 2], [1, 3], [1, 2, 1])
+
+
+def multi_params(tpl: str, nd: int, dims) -> List[dict]:
+    """Every parameter combination of an argument template for a tensor with nd dimensions (dims: the values of `dim`)."""
+    ints = sorted({-nd, -1, 0, 1, 2, 3, nd - 1})
+    table = {
+        "x": [{}], "uniq": [{}],
+        "x_dim": [{"dim": d} for d in dims], "uniq_dim": [{"dim": d} for d in dims],
+        "x_dim_kd": [{"dim": d, "keepdim": kd} for d in dims for kd in (False, True)],
+        "x_dims_kd": [{"dim": d, "keepdim": kd} for d in dims for kd in (False, True)],
+        "x_i": [{"i": i} for i in ints],
+        "x_i_kd": [{"i": i, "keepdim": kd} for i in ints for kd in (False, True)],
+        "x_i_dim": [{"i": k, "dim": d} for k in MULTI_KS for d in dims],
+        "x_i_j": [{"i": k, "dim": d} for k in MULTI_KS for d in dims],
+        "x_i_dim_kd": [{"i": k, "dim": d, "keepdim": kd} for k in MULTI_KS for d in dims for kd in (False, True)],
+        "x_sec": [{"sec": list(s)} for s in MULTI_SECS],
+        "x_sec_dim": [{"sec": list(s), "dim": d} for s in MULTI_SECS for d in dims],
+        "x_i_ri": [{"i": k} for k in (1, 2)],
+    }
+    if tpl in MULTI_OPERAND_TPLS:
+        return [{"other": n} for n in ("twin", "other")]
+    return table[tpl]
+
+
+def is_multi_result(r) -> bool:
+    return isinstance(r, (tuple, list)) and len(r) > 0 and all(isinstance(t, torch.Tensor) for t in r)
+
+
+def _same_tensors(a, b) -> bool:
+    if len(a) != len(b):
+        return False
+    for u, v in zip(a, b):
+        if u.shape != v.shape or u.dtype != v.dtype:
+            return False
+        if not (torch.equal(u, v) or (u.dtype.is_floating_point and bool(((u == v) | (u.isnan() & v.isnan())).all()))):
+            return False
+    return True
+
+
+def _multi_schema_names() -> Optional[set]:
+    """Names of the ATen operators whose schema returns several tensors or a tensor list (None: torch does not expose them)."""
+    try:
+        schemas = torch._C._jit_get_all_schemas()
+    except Exception:  # noqa: BLE001 - private API of torch: fall back to probing every function
+        return None
+    names = set()
+    for s in schemas:
+        if not s.name.startswith("aten::"):
+            continue
+        types = [str(r.type) for r in s.returns]
+        if sum(t.startswith("Tensor") or t.startswith("Optional[Tensor") for t in types) >= 2 or any("List[Tensor]" in t or "Tensor[]" in t for t in types):
+            names.add(s.name[6:])
+    return names or None
+
+
+@functools.lru_cache(maxsize=1)
+def multi_forms() -> tuple:
+    """Sorted ((namespace, function name, template), ...): the call forms for which plain torch returns several tensors for a
+    batch-like (N, C, Y, X) or image-like (C, Y, X) probe tensor, deterministically and without changing its argument."""
+    import inspect
+    import warnings
+
+    from torch.overrides import get_overridable_functions
+
+    overridable = set()
+    for lst in get_overridable_functions().values():
+        for f in lst:
+            try:
+                overridable.add(f)
+            except TypeError:
+                pass
+    schema = _multi_schema_names()
+    prefix = {"linalg": "linalg_", "fft": "fft_", "special": "special_"}
+    cands = []
+    for nsname in sorted(MULTI_NS):
+        ns = MULTI_NS[nsname]
+        for name in sorted(dir(ns)):
+            if name.startswith("_") or name.endswith("_"):
+                continue
+            f = getattr(ns, name, None)
+            try:
+                if not callable(f) or f not in overridable:
+                    continue
+            except TypeError:
+                continue
+            if schema is not None and not inspect.isfunction(f) and (prefix.get(nsname, "") + name) not in schema and name not in schema:
+                continue  # a builtin whose ATen schemas all return a single tensor
+            cands.append((nsname, name, f))
+    dt = torch.float32
+    probes = []
+    for shape, N in (((3, 3), 2), ((3, 3), None)):
+        if N is None:
+            t, u = item_data(0, 2, shape, dt), item_data(1, 2, shape, dt, 0.25)
+        else:
+            t = torch.stack([item_data(j, 2, shape, dt) for j in range(N)], 0)
+            u = torch.stack([item_data(j, 2, shape, dt, 0.25) for j in range(N, 2 * N)], 0)
+        probes.append((t, {"twin": t + 0.5, "other": u}))
+    out = []
+    with warnings.catch_warnings(), torch.random.fork_rng(), torch.no_grad():
+        warnings.simplefilter("ignore")
+        torch.manual_seed(0)
+        for nsname, name, f in cands:
+            fits, random = [], False
+            for tpl in sorted(MULTI_TPLS):
+                if random:
+                    break
+                call = MULTI_TPLS[tpl]
+                found = False
+                for t, E in probes:
+                    if random:
+                        break
+                    # (probing: non-negative ints and keepdim=True are enough to tell whether the template fits the function)
+                    pars = [par for par in multi_params(tpl, t.ndim, (0, t.ndim - 1)) if par.get("i", 0) >= 0 and par.get("keepdim") is not False]
+                    for par in pars[:4]:
+                        x = t.clone()
+                        rng = torch.get_rng_state()
+                        try:
+                            r = call(f, x, par, E)
+                        except Exception:  # noqa: BLE001 - the template does not fit this function
+                            r = None
+                        if not torch.equal(rng, torch.get_rng_state()):
+                            random = True  # draws random numbers: there is no plain-torch value to compare with
+                            break
+                        try:
+                            if not is_multi_result(r):
+                                continue
+                            r2 = call(f, t.clone(), par, E)
+                        except Exception:  # noqa: BLE001
+                            continue
+                        if torch.equal(x, t) and is_multi_result(r2) and _same_tensors(list(r), list(r2)):
+                            found = True
+                            break
+                    if found:
+                        break
+                if found:
+                    fits.append((nsname, name, tpl))
+            if not random:
+                out += fits
+    return tuple(out)
+
+
+def _item_perturbations(v: torch.Tensor) -> List[torch.Tensor]:
+    """Other data for one item: far above / far below every item, order reversed, pattern reversed."""
+    if v.dtype == torch.bool:
+        return [~v, torch.zeros_like(v), torch.ones_like(v)]
+    return [v + 1000, v - 1000, -v, v.flatten().flip(0).reshape(v.shape)]
+
+
+def _rows_differ(a: torch.Tensor, b) -> Optional[List[bool]]:
+    """Per index along dim 0 (one flag for a 0-dim tensor): do a and b differ there? None: they differ as a whole."""
+    if not isinstance(b, torch.Tensor) or a.shape != b.shape or a.dtype != b.dtype:
+        return None
+    ne = a != b
+    if a.dtype.is_floating_point:
+        ne = ne & ~(a.isnan() & b.isnan())
+    if a.ndim == 0:
+        return [bool(ne)]
+    if a.shape[0] == 0:
+        return []
+    if ne.numel() == 0:
+        return [False] * a.shape[0]
+    return ne.reshape(a.shape[0], -1).any(1).tolist()
+
+
+def multi_shadow(call, is_batch: bool, sources, E: dict, pouts: List[torch.Tensor]):
+    """Ownership of the outputs of an arbitrary function by intervention on plain torch: entry i (index along dim 0) of output
+    k is computed from item q of operand s iff replacing the data of that item alone (by values far above / far below all
+    items, negated, reversed) changes that entry.  sources: [(operand name, plain tensor, lo, hi)], 'self' first.
+    Returns (lo shadows, hi shadows, cross) - cross[k][i]: the entry depends on several items of ONE operand."""
+    deps = [[set() for _ in range(o.shape[0] if o.ndim else 1)] for o in pouts]
+    base = {n: t.detach() for n, t, _, _ in sources}
+    with torch.no_grad():
+        for si, (sname, t, _, _) in enumerate(sources):
+            for q in (range(t.shape[0]) if is_batch and t.ndim else [None]):
+                item = base[sname] if q is None else base[sname][q]
+                for pert in _item_perturbations(item):
+                    t2 = base[sname].clone()
+                    if q is None:
+                        t2.copy_(pert)
+                    else:
+                        t2[q] = pert
+                    E2 = dict(E)
+                    for n, b in base.items():
+                        if n != "self":
+                            E2[n] = b
+                    if sname == "self":
+                        arg = t2
+                    else:
+                        arg, E2[sname] = base["self"], t2
+                    E2["self"] = E2["_p"] = arg
+                    try:
+                        outs2 = call(arg, E2)
+                        outs2 = list(outs2) if isinstance(outs2, (tuple, list)) else [outs2]
+                    except Exception:  # noqa: BLE001 - the outcome changed altogether: everything depends on this item
+                        outs2 = []
+                    for k, o in enumerate(pouts):
+                        rows = _rows_differ(o.detach(), outs2[k]) if len(outs2) == len(pouts) else None
+                        for i in range(len(deps[k])):
+                            if rows is None or rows[i]:
+                                deps[k][i].add((si, q))
+    owners = {}
+    for si, (_, t, lo, hi) in enumerate(sources):
+        for q in (range(t.shape[0]) if is_batch and t.ndim else [None]):
+            a, b = (lo, hi) if q is None else (lo[q], hi[q])
+            owners[(si, q)] = (float(a.min()), float(b.max())) if a.numel() else (NAN, NAN)
+    los, his, cross = [], [], []
+    for k, o in enumerate(pouts):
+        lo_k = torch.full(tuple(o.shape), NAN, dtype=torch.float64)
+        hi_k = torch.full(tuple(o.shape), NAN, dtype=torch.float64)
+        cr = []
+        for i, S in enumerate(deps[k]):
+            per_source = collections.Counter(si for si, _ in S)
+            cr.append(any(c > 1 for c in per_source.values()))
+            if not S:
+                continue
+            a = [owners[s][0] for s in sorted(S, key=str)]
+            b = [owners[s][1] for s in sorted(S, key=str)]
+            va = NAN if any(math.isnan(v) for v in a + b) else min(a)
+            vb = NAN if any(math.isnan(v) for v in a + b) else max(b)
+            if o.ndim == 0:
+                lo_k.fill_(va), hi_k.fill_(vb)
+            else:
+                lo_k[i], hi_k[i] = va, vb
+        los.append(lo_k), his.append(hi_k), cross.append(cr)
+    return los, his, cross
+
+
+def batch_related(op: dict, outs: List[torch.Tensor], p: torch.Tensor) -> bool:
+    """Does the call work along the first dimension (dim / positional int names it), change it, or read a second operand?"""
+    nd = p.ndim
+    if op["tpl"] in MULTI_OPERAND_TPLS or ("dim" in op and op["dim"] % nd == 0):
+        return True
+    if op["tpl"] in ("x_i", "x_i_kd") and op["i"] % nd == 0:
+        return True
+    return any(t.ndim != nd or t.shape[0] != p.shape[0] for t in outs)
+
+
+def multi_ops_for(p: torch.Tensor, env: dict, D: int, dims, select: str = "all") -> List[dict]:
+    """The multi-output call forms with every parameter combination that plain torch accepts for the tensor `p` (and returns
+    several tensors for); one op per distinct (function, keyword / positional form, outputs).
+    select: 'all', 'batch' (only calls that are batch_related), 'operands' (f(x) and the templates with a second operand)."""
+    ops, seen = [], set()
+    nd = p.ndim
+    for ns, fn, tpl in multi_forms():
+        if select == "operands" and tpl != "x" and tpl not in MULTI_OPERAND_TPLS:
+            continue
+        for par in multi_params(tpl, nd, dims):
+            op = dict({"op": "multi", "ns": ns, "fn": fn, "tpl": tpl}, **par)
+            r = simulate(op, p, env, D)
+            if not isinstance(r, list) or not r or (select == "batch" and not batch_related(op, r, p)):
+                continue
+            form = tpl if tpl in MULTI_OPERAND_TPLS else ("kw" if any(w in tpl for w in ("dim", "uniq", "ri")) else "pos")
+            key = (ns, fn, form, tuple((tuple(t.shape), str(t.dtype), t.detach().numpy().tobytes()) for t in r))
+            if key in seen:
+                continue
+            seen.add(key)
+            ops.append(op)
+    return ops
 
 
 def op_name(op: dict) -> str:
     """Stable name of the call form (used in violation kinds and labels)."""
     o = op["op"]
+    if o == "multi":
+        return f"{op['ns']}.{op['fn']}"
     if o in ("unary", "inplace", "binary", "reduce", "cast"):
         return op["fn"]
     if o == "getitem":
@@ -892,6 +1216,8 @@ def op_operand_names(op: dict) -> List[str]:
         return [n for n in op["operands"] if n != "self"]
     if o in ("binary", "where", "append"):
         return [op["other"]] if op.get("other") not in (None, "self") else []
+    if o == "multi" and op["tpl"] in MULTI_OPERAND_TPLS:
+        return [op["other"]]
     return []
 
 
@@ -913,6 +1239,8 @@ def touches_dim0(op: dict, ndim: int) -> bool:
         return is0(op["dim"])
     if o in ("iter", "append", "from_images"):
         return True
+    if o == "multi":  # (the functions called without `dim` are classed by what they do: see run_program)
+        return is0(op.get("dim"))
     if o == "flip":
         return any(is0(d) for d in op["dims"])
     if o == "roll":
@@ -1049,10 +1377,36 @@ class State:
         self.nt = False
         self.mixed = 0
         self.checked = 0
+        self.op_sizes: set = set()  # batch sizes of the deepali batches the current operation reads
+        self.op_has_image = False   # ... and whether it reads a single Image / FlowField
+        self.judgeable = False      # a multi-output function returned something that could have been described again
 
 
-def check_result(stt: State, r, pr, lo, hi, name: str, sfx: str, flow_in: bool):
-    """Oracle for one output tensor `r` of an operation (pr: plain torch result, lo/hi: id shadows)."""
+def mixed_entry(stt: State, r, kind: str, i, lo, hi, cross, name: str, sfx: str):
+    """An entry whose data is computed from several input items has no item whose grid it could carry.
+
+    Tolerated (grid count / shape only; see ASSUMPTIONS): operand-wise mixing - entry i of the result combines entry i of
+    the first operand with other operands (x + other batch, channel-wise cat) and inherits from the first operand -, and
+    the shape coincidences of reshaping single-output ops, as long as the result has the batch size of a batch it read.
+    Not tolerated: the result has a batch size that none of the batches it was computed from has (nothing it could inherit
+    matches), and - where the shadow knows which items an entry was computed from (reductions, functions with several
+    outputs) - an entry computed from several items of ONE batch (across the batch dimension)."""
+    stt.mixed += 1
+    what = f"entry {i} of {kind}{tuple(r.shape)}" if i is not None else f"{kind}{tuple(r.shape)}"
+    rng = f"items {float(lo.min()):g}..{float(hi.max()):g}"
+    if cross:
+        raise Violation(f"mixed_entry_described:{name}{sfx}", f"{what} is computed from several items of one batch ({rng}) yet carries a grid; "
+                                                              f"it must be a plain tensor")
+    if i is not None and r.shape[0] not in stt.op_sizes:
+        raise Violation(f"mixed_entry_described:{name}{sfx}", f"{what} mixes {rng} and the batch size {r.shape[0]} is not that of any batch "
+                                                              f"it was computed from ({sorted(stt.op_sizes)}): no grids it could inherit")
+    if i is None and not stt.op_has_image:
+        raise Violation(f"mixed_entry_described:{name}{sfx}", f"{what} mixes {rng} of a batch yet is described as one image")
+
+
+def check_result(stt: State, r, pr, lo, hi, name: str, sfx: str, flow_in: bool, cross=None):
+    """Oracle for one output tensor `r` of an operation (pr: plain torch result, lo/hi: id shadows; cross: per entry along
+    dim 0, whether the shadow found it to depend on several items of one batch - None if the shadow does not tell)."""
     if not isinstance(r, torch.Tensor):
         raise Violation(f"not_a_tensor:{name}", f"result is {type(r).__name__} where plain torch returns a Tensor")
     if tuple(r.shape) != tuple(pr.shape) or r.dtype != pr.dtype:
@@ -1081,7 +1435,7 @@ def check_result(stt: State, r, pr, lo, hi, name: str, sfx: str, flow_in: bool):
         for i, g in enumerate(grids):
             own = entry_owner(lo[i], hi[i])
             if own == "mixed":
-                stt.mixed += 1
+                mixed_entry(stt, r, kind, i, lo[i], hi[i], bool(cross is not None and cross[i]), name, sfx)
             elif own is not None:
                 bad = grid_mismatch(g, stt.G[own])
                 if bad:
@@ -1093,7 +1447,7 @@ def check_result(stt: State, r, pr, lo, hi, name: str, sfx: str, flow_in: bool):
             raise Violation(f"grid_shape:{name}{sfx}", f"{kind}{tuple(r.shape)} with grid shape {tuple(g.shape)}")
         own = entry_owner(lo, hi)
         if own == "mixed":
-            stt.mixed += 1
+            mixed_entry(stt, r, kind, None, lo, hi, bool(cross is not None and any(cross)), name, sfx)
         elif own is not None:
             bad = grid_mismatch(g, stt.G[own])
             if bad:
@@ -1295,10 +1649,13 @@ def run_program(case, collect=None):
         Ep["_p"] = p
         Ep["plain"] = aux(tuple(main.plain.shape), p.dtype if p.dtype.is_floating_point else torch.float32)
         p_before = p
+        rng_state = torch.get_rng_state() if cat == "multi" else None
         try:
             pr = call(p, Ep)
         except Exception as e:  # noqa: BLE001 - invalid program for plain torch: outside the domain
             raise Skip(f"invalid for plain torch: {op['op']}: {type(e).__name__}")
+        if rng_state is not None and not torch.equal(rng_state, torch.get_rng_state()):
+            raise Skip("the function draws random numbers for these arguments")
         pouts = _outs(pr)
         # shadows
         Elo, Ehi = plain_env(others_plain, "lo", lo), plain_env(others_plain, "hi", hi)
@@ -1306,6 +1663,7 @@ def run_program(case, collect=None):
             E["_p"] = p_before
             E["plain"] = torch.full(tuple(main.plain.shape), NAN, dtype=torch.float64)
         shapes = [tuple(t.shape) for t in (pouts if pouts is not None else [pr])]
+        crossl = None
         if cat == "struct":
             lor, hir = call(lo, Elo), call(hi, Ehi)
         elif cat == "same" and pouts is not None:  # copies of [x, x] / of the entries of x along dim 0
@@ -1324,6 +1682,17 @@ def run_program(case, collect=None):
         elif cat == "reduce":
             lor = shadow_reduce(lo, op["dim"], bool(op["keepdim"]), shapes[0], "lo")
             hir = shadow_reduce(hi, op["dim"], bool(op["keepdim"]), shapes[0], "hi")
+            if t0 and nb >= 2:  # reduced across the batch dimension: every entry is computed from all items of the batch
+                crossl = [[True] * (shapes[0][0] if len(shapes[0]) else 1)]
+        elif cat == "multi":
+            srcs = [("self", p_before, lo, hi)] + [(n, others_plain[n].plain, others_plain[n].lo, others_plain[n].hi)
+                                                   for n in op_operand_names(op)]
+            lor, hir, crossl = multi_shadow(call, is_batch, srcs, Ep, pouts if pouts is not None else [pr])
+            if pouts is None:
+                lor, hir = lor[0], hir[0]
+            if is_batch and any(c for cr in crossl for c in cr):
+                t0 = True
+                sfx = ":dim0"
         else:
             lor, hir = shadow_spatial(lo, shapes[0], "lo"), shadow_spatial(hi, shapes[0], "hi")
         # expected grids after the documented grid-changing override
@@ -1338,6 +1707,9 @@ def run_program(case, collect=None):
         Er["_p"] = p_before
         Er["plain"] = Ep["plain"]
         x_state = operand_state(x)
+        reads = [x] + [others_plain[on].real for on in op_operand_names(op) if on in others_plain]
+        stt.op_sizes = {int(o.shape[0]) for o in reads if dtype_of(o) in BATCH_KINDS}
+        stt.op_has_image = any(dtype_of(o) in IMAGE_KINDS for o in reads)
         r = guarded(lambda: call(x, Er), name)
         # operands are only read: the object the operation was applied to and the other batches / images involved hold the
         # same Grid objects (as many, unchanged) and - unless plain torch works in place - the same data afterwards
@@ -1349,6 +1721,8 @@ def run_program(case, collect=None):
             raise Violation(f"result_structure:{name}", f"deepali returned {type(r).__name__}, plain torch {type(pr).__name__}")
         if pouts is not None and len(routs) != len(pouts):
             raise Violation(f"result_structure:{name}", f"{len(routs)} outputs, plain torch {len(pouts)}")
+        if cat == "multi" and type(pr) not in (tuple, list) and type(r) is not type(pr):  # (x.max(dim).values must keep working)
+            raise Violation(f"result_container:{name}", f"deepali returned a {type(r).__name__}, plain torch the named tuple {type(pr).__name__}")
         if G_after is not None:
             stt.G = G_after
         rl = list(routs) if routs is not None else [r]
@@ -1357,7 +1731,12 @@ def run_program(case, collect=None):
         hl = list(hir) if pouts is not None else [hir]
         kinds = []
         for i in range(len(rl)):
-            kinds.append(guarded(lambda i=i: check_result(stt, rl[i], pl[i], ll[i], hl[i], name, sfx, flow_in), name))
+            kinds.append(guarded(lambda i=i: check_result(stt, rl[i], pl[i], ll[i], hl[i], name, sfx, flow_in,
+                                                          crossl[i] if crossl is not None else None), name))
+        if cat == "multi":
+            stt.labels.append(f"multi:tpl={op['tpl']}")
+            if nb >= 2 and any(t.ndim == x.ndim and tuple(t.shape[-D:]) == tuple(x.shape[-D:]) for t in pl):
+                stt.judgeable = True
         is_clone = op["op"] == "cast" and op["fn"] in ("clone", "torch_clone")
         if cat == "same" and op.get("via") not in ("items", "chunks"):  # copy-like: the grids are those of the input, slot by slot
             for ri in rl:
@@ -1404,7 +1783,7 @@ def run_program(case, collect=None):
         check_operand_unchanged(o.real, input_states[on], o.plain, "program", f"'{on}'")
     if nfrac:
         stt.labels.append("copy_of_fractional_grid")
-    info = {"nontrivial": stt.nt and case.get("N", 1) >= 2,
+    info = {"nontrivial": (stt.nt or stt.judgeable) and case.get("N", 1) >= 2,
             "labels": stt.labels + [f"kind={case['kind']}", f"N={case.get('N', 1)}", f"D={D}", f"steps={nsteps}"]
             + ([f"excluded_known:{e}" for e in case.get("excluded", [])]) + (["mixed_entries"] if stt.mixed else [])
             + [f"init={(case.get('init') or {}).get('layout') or 'dense'}"] + (["init:requires_grad"] if (case.get("init") or {}).get("rg") else [])
@@ -1812,13 +2191,14 @@ def simulate(op: dict, p: torch.Tensor, env: dict, D: int):
 
 
 @st.composite
-def program_cases(draw):
+def program_cases(draw, multi: bool = False):
+    """multi: one operation of the program (the first or the second) is a function with several outputs (gen_multi)."""
     kind = draw(st.sampled_from(["ImageBatch", "ImageBatch", "ImageBatch", "FlowFields", "FlowFields", "FlowFields", "Image", "FlowField"]))
     D = draw(st.sampled_from([2, 2, 2, 3]))
     batch = kind in BATCH_KINDS
     flow = kind in ("FlowFields", "FlowField")
     shape = draw(st.lists(st.integers(1, 4), min_size=D, max_size=D))
-    case = {"kind": kind, "N": draw(st.sampled_from([1, 2, 3, 3, 4, 4, 5, 6])) if batch else 1, "C": D if flow else draw(st.integers(1, 3)),
+    case = {"kind": kind, "N": draw(st.sampled_from([1, 2, 2, 3, 4, 4] if multi else [1, 2, 3, 3, 4, 4, 5, 6])) if batch else 1, "C": D if flow else draw(st.integers(1, 3)),
             "shape": shape, "dtype": draw(st.sampled_from(["float32", "float32", "float64"])), "ac": draw(st.booleans())}
     if batch:
         case["M"] = draw(st.integers(1, 2))
@@ -1850,14 +2230,18 @@ def program_cases(draw):
     nops = draw(st.sampled_from([1, 2, 2, 3, 3]))
     spatial = tuple(shape)
     after_view = layout != "dense"
-    for _ in range(nops):
+    multi_at = draw(st.sampled_from([0, 0, 1])) if multi else -1
+    for k_op in range(nops):
         nd = p.ndim
         if nd not in (D + 1, D + 2):
             break
         is_batch = nd == D + 2
         # a copy-like op follows an op that returned a view of its input (or a view-backed initial object) half of the time
         fam = "copy" if after_view and draw(st.booleans()) else None
-        op = gen_op(draw, tuple(p.shape), is_batch, base_shape if is_batch == batch else (), fam)
+        if multi and k_op == min(multi_at, nops - 1):
+            op = gen_multi(draw, p, env, D)
+        else:
+            op = gen_op(draw, tuple(p.shape), is_batch, base_shape if is_batch == batch else (), fam)
         kid = known_exclusion(op, tuple(p.shape), is_batch)
         if kid is not None:
             excluded.append(kid)
@@ -2249,6 +2633,99 @@ def survey_cases(tier: str = "quick"):
 
 
 # ---------------------------------------------------------------------------------------
+# functions with several outputs: survey of every discovered call form, and random programs that contain one
+
+
+def _multi_base(kind: str, N: int, shape, dtype="float32", M: Optional[int] = None, axes: Optional[str] = None, C: int = 2) -> dict:
+    """Object with N items (all grids distinct, align_corners alternating) and an 'other' batch of M items (default: N)."""
+    batch = kind in BATCH_KINDS
+    n_items = (N + (N if M is None else M)) if batch else 2
+    plan = {"mode": "fixed", "rot": False, "items": [_item(j, j % 2 == 0) for j in range(n_items)]}
+    base = {"kind": kind, "N": N if batch else 1, "C": C, "shape": list(shape), "dtype": dtype, "ac": True, "gplan": plan}
+    if batch:
+        base["M"] = N if M is None else M
+    else:
+        base["id"] = 0
+    if axes:
+        base["axes"] = axes
+    return base
+
+
+# batch sizes 1..4 so that "the batch sizes of the outputs sum to N" (2 outputs of 1 entry, N = 2; topk(2), N = 4; 3 chunks ...)
+# and "an output has N entries again" both occur; square spatial shape (functions of matrices apply); C == N for N = 2
+MULTI_BASES = [_multi_base("ImageBatch", n, [3, 3]) for n in (1, 2, 3, 4)] + [
+    _multi_base("FlowFields", n, [3, 3], axes=ax) for n, ax in ((1, "cube"), (2, "world"), (3, "grid"), (4, "cube_corners"))] + [
+    _multi_base("ImageBatch", 3, [2, 2, 2], dtype="float64", C=3), _multi_base("FlowFields", 2, [2, 3, 2], axes="world", C=3),
+    _multi_base("ImageBatch", 2, [2, 3], M=1, C=1),
+    _multi_base("Image", 1, [3, 3]), _multi_base("FlowField", 1, [3, 3], axes="grid"), _multi_base("Image", 1, [2, 2, 2], C=3)]
+
+
+# quick tier: every call form on the ImageBatch with N = C = 2; the calls that work along / change the batch dimension on
+# the ImageBatch with 1, 3, 4 items and on the FlowFields with 2 items; the calls with a second operand on single images
+# (the rest: thorough tier)
+MULTI_QUICK = ["batch", "all", "batch", "batch", None, "batch", None, None, None, None, None, "operands", "operands", None]
+
+
+def _plain_of(base: dict):
+    """(plain twin, operand environment, D) of a survey base object."""
+    batch = base["kind"] in BATCH_KINDS
+    sp, dt = tuple(base["shape"]), _dt(base["dtype"])
+    if batch:
+        N, M = base["N"], base.get("M", 1)
+        dense = torch.stack([item_data(j, base["C"], sp, dt) for j in range(N)], 0)
+        oth = torch.stack([item_data(j, base["C"], sp, dt, 0.25) for j in range(N, N + M)], 0)
+    else:
+        dense = item_data(base.get("id", 0), base["C"], sp, dt)
+        oth = item_data(base.get("id", 0) + 1, base["C"], sp, dt, 0.25)
+    p = apply_layout(dense, (base.get("init") or {}).get("layout"))
+    return p, {"twin": dense + 0.5, "other": oth, "plain": aux(tuple(dense.shape), dt)}, len(sp)
+
+
+def multi_survey_cases(tier: str = "quick"):
+    """Every discovered multi-output call form x every parameter combination plain torch accepts, on each of MULTI_BASES:
+    along every dimension (quick: along the batch, channel and last dimension, and on most bases only the calls that work
+    along or change the batch dimension: MULTI_QUICK)."""
+    out = []
+    for b, base in enumerate(MULTI_BASES):
+        p, env, D = _plain_of(base)
+        nd = p.ndim
+        dims = list(range(-nd, nd)) if tier == "thorough" else sorted({0, 1, nd - 1, -nd})
+        select = "all"
+        if tier != "thorough":
+            select = MULTI_QUICK[b]
+            if select is None:
+                continue
+        for op in multi_ops_for(p, env, D, dims, select):
+            out.append(dict(base, ops=[op]))
+            if base["kind"] in BATCH_KINDS and tier == "thorough" and op.get("dim", 1) % nd == 0:
+                # what was split off / selected is used further: a copy, and the batch it is appended to
+                out.append(dict(base, ops=[dict(op, pick=1), {"op": "deepcopy", "via": None}]))
+    return out
+
+
+def gen_multi(draw, p: torch.Tensor, env: dict, D: int) -> dict:
+    """A multi-output call form with drawn parameters that plain torch accepts for `p` (up to 4 attempts; else clone)."""
+    forms = multi_forms()
+    nd = p.ndim
+    for _ in range(4):
+        ns, fn, tpl = draw(st.sampled_from(forms))
+        dims = [0, 0] + list(range(-nd, nd))
+        par = draw(st.sampled_from(multi_params(tpl, nd, dims)))
+        op = dict({"op": "multi", "ns": ns, "fn": fn, "tpl": tpl, "pick": draw(_ints(0, 3))}, **par)
+        r = simulate(op, p, env, D)
+        if isinstance(r, list) and r:
+            return op
+    return {"op": "cast", "fn": "clone", "dtype": "float32"}
+
+
+@st.composite
+def multi_program_cases(draw):
+    """Programs as in facet programs in which one operation (the first, or the one after a structural first operation) is a
+    function with several outputs; N in 1..4."""
+    return draw(program_cases(multi=True))
+
+
+# ---------------------------------------------------------------------------------------
 # explicit batch builders: from_images, append, batch(), iteration, collate_samples
 
 
@@ -2567,6 +3044,28 @@ def selftest():
     d = narrow_desc(item_desc(1, (3, 4), True), 0, 1, 2)
     assert d["size"] == [2, 3] and abs(d["center"][0] - (100.0 + 1.5 * (1 + 0.5 - 1.5))) < 1e-12
     assert touches_dim0({"op": "flip", "dims": [-4]}, 4) and not touches_dim0({"op": "flip", "dims": [1]}, 4)
+    # functions with several outputs: the discovery finds the usual ones, and the intervention shadow tells who owns what
+    forms = set(multi_forms())
+    for need in (("torch", "max", "x_dim_kd"), ("Tensor", "topk", "x_i_dim"), ("torch", "unbind", "x"), ("Tensor", "chunk", "x_i"),
+                 ("torch", "var_mean", "x_dims_kd"), ("torch", "sort", "x_dim"), ("torch", "broadcast_tensors", "x_y"), ("linalg", "svd", "x")):
+        assert need in forms, need
+    data = torch.stack([item_data(j, 2, (2, 2), torch.float32) for j in range(3)], 0)
+    sh = torch.arange(3, dtype=torch.float64).reshape(3, 1, 1, 1).expand(3, 2, 2, 2).clone()
+
+    def owners(op):
+        _, call, _ = interpret(dict({"op": "multi"}, **op), 2)
+        E0 = {"_p": data, "self": data}
+        lo_, hi_, cr = multi_shadow(call, True, [("self", data, sh, sh)], E0, list(call(data, E0)))
+        return [[entry_owner(a[i], b[i]) for i in range(a.shape[0])] for a, b in zip(lo_, hi_)], cr
+
+    own, cr = owners({"ns": "torch", "fn": "max", "tpl": "x_dim_kd", "dim": 0, "keepdim": True})
+    assert own == [["mixed"], ["mixed"]] and cr == [[True], [True]]
+    own, cr = owners({"ns": "torch", "fn": "max", "tpl": "x_dim_kd", "dim": 1, "keepdim": True})
+    assert own == [[0, 1, 2], [0, 1, 2]] and cr == [[False] * 3] * 2
+    own, cr = owners({"ns": "Tensor", "fn": "chunk", "tpl": "x_i", "i": 2})
+    assert own == [[0, 1], [2]] and not any(c for r_ in cr for c in r_)
+    own, cr = owners({"ns": "torch", "fn": "sort", "tpl": "x_dim", "dim": 0})
+    assert own[0] == ["mixed"] * 3 and all(cr[0]) and all(cr[1])
     # grid plans: a perturbed grid differs from the unperturbed one in float32 but stays within allclose(rtol=1e-5, atol=1e-8),
     # the comparison of Grid.__eq__; the rotated direction is orthonormal up to float32 rounding
     for k in range(6):
@@ -2620,6 +3119,21 @@ FACETS = [
                "some op that reorders/selects/splits/joins along dim 0 returned a deepali type",
           quick=2000, thorough=30000, shards=16, quick_shards=4, nontrivial=_nt_program,
           enumerate=survey_cases, exhaustive_tiers=("quick", "thorough")),
+    Facet("multi_output", run_program, strategy=multi_program_cases,
+          rule="every function of torch / torch.Tensor / torch.nn.functional / torch.linalg / torch.fft / torch.special that dispatches "
+               "through __torch_function__ and returns several tensors (tuple, list, torch.return_types.*) for some argument template "
+               "(f(x), f(x, dim=), f(x, dim=, keepdim=), f(x, int), f(x, int, dim) positional and keyword, f(x, list[, dim=]), f(x, y), "
+               "f([x, y]), return_inverse / return_counts / return_indices=True; discovered by calling them on a plain probe tensor: "
+               "about 100 functions, 270 call forms; those drawing random numbers left out) x every parameter combination plain torch accepts (dim over the batch, "
+               "channel and last dimension incl. negative spelling, thorough: every dim; keepdim both; k in 1..3; section lists) on 14 "
+               "objects (ImageBatch / FlowFields with N = 1, 2, 3, 4 distinct grids, 2-D and 3-D, C = N, C = 1, Image / FlowField; "
+               "quick: all forms on the ImageBatch with N = C = 2, the forms that work along or change the batch dimension on the "
+               "ImageBatch with 1, 3, 4 items and the FlowFields with 2 items, the forms with a second operand on Image / FlowField), "
+               "plus random programs of 1-3 operations containing one such function (N in 1..4, grid plans, layouts as in facet "
+               "programs). Ownership of each output entry is found by intervention on plain torch. non-trivial = N >= 2 and some "
+               "output has the dimensions and spatial shape of the input (it could have been described as a batch again)",
+          quick=300, thorough=6000, shards=8, quick_shards=2, nontrivial=_nt_program,
+          enumerate=multi_survey_cases, exhaustive_tiers=("quick", "thorough")),
     Facet("constructors", run_constructors, strategy=constructor_cases,
           rule="from_images / append / batch() / iteration+from_images / collate_samples (dict, OrderedDict, dataclass, namedtuple; "
                "Image, ImageBatch, FlowField, FlowFields, int, str, None and nested fields) on items drawn from 6 ids whose grids "
